@@ -8,11 +8,14 @@ import (
 	"crypto/sha256"
 	"encoding/hex"
 	"encoding/json"
+	goerrors "errors"
 	"fmt"
+	"os"
 	"reflect"
 	"regexp"
 	"sort"
 	"strings"
+	"syscall"
 	"unsafe"
 
 	"github.com/cockroachdb/errors"
@@ -22,10 +25,12 @@ import (
 	"github.com/cockroachdb/errors/exthttp"
 	"github.com/cockroachdb/redact"
 	"github.com/gogo/protobuf/types"
+	pkgerrors "github.com/pkg/errors"
 	"google.golang.org/grpc/codes"
 
 	"verifharness/internal/cat"
 	"verifharness/internal/tok"
+	"verifharness/internal/utypes"
 )
 
 // Tree is the visible cause tree.
@@ -678,4 +683,156 @@ func ReportOf(e error) *Report {
 		}
 	}
 	return r
+}
+
+// Std is the differential observation against the standard library and
+// pkg/errors (C14): the real results of both sides, no judgement.
+type Std struct {
+	Is        []string `json:"is"`        // std errors.Is(e, r) for every reference of the pool
+	UnwrapEq  bool     `json:"unwrapEq"`  // errors.Unwrap(e) (library) is the node std errors.Unwrap(e) returns
+	StdUnwNil bool     `json:"stdUnwNil"` // std errors.Unwrap(e) == nil
+	LibUnwNil bool     `json:"libUnwNil"` // library Unwrap(e) == nil
+	As        [][]int  `json:"as"`        // per target: [std index, lib index, values equal (1/0)]; index in VisNodes, -1 = not found
+	PkgRoot   int      `json:"pkgRoot"`   // index in VisNodes of pkg/errors.Cause(e)
+	LibRoot   int      `json:"libRoot"`   // index in VisNodes of errors.UnwrapAll(e) / errors.Cause(e)
+	CauseEq   bool     `json:"causeEq"`   // errors.Cause(e) and errors.UnwrapAll(e) are the same node
+}
+
+func sameNode(a, b error) bool {
+	if a == nil || b == nil {
+		return a == nil && b == nil
+	}
+	ta, tb := reflect.TypeOf(a), reflect.TypeOf(b)
+	if ta != tb {
+		return false
+	}
+	if ta.Comparable() {
+		return a == b
+	}
+	return reflect.DeepEqual(a, b)
+}
+
+func indexOf(nodes []error, x error) int {
+	if x == nil {
+		return -1
+	}
+	for i, n := range nodes {
+		if sameNode(n, x) {
+			return i + 1
+		}
+	}
+	return 0 // found something that is not a node of the tree
+}
+
+func asBoth(e error, nodes []error, mk func() (target interface{}, get func() error)) []int {
+	t1, g1 := mk()
+	t2, g2 := mk()
+	si, li := -1, -1
+	func() {
+		defer func() {
+			if r := recover(); r != nil {
+				si = -9
+			}
+		}()
+		if goerrors.As(e, t1) {
+			si = indexOf(nodes, g1())
+		}
+	}()
+	func() {
+		defer func() {
+			if r := recover(); r != nil {
+				li = -9
+			}
+		}()
+		if errors.As(e, t2) {
+			li = indexOf(nodes, g2())
+		}
+	}()
+	eq := 0
+	if si >= 0 && li >= 0 && sameNode(g1(), g2()) {
+		eq = 1
+	}
+	return []int{si, li, eq}
+}
+
+// StdOf computes the differential observation.
+func StdOf(e error, pool []error) *Std {
+	s := &Std{Is: make([]string, len(pool)), As: [][]int{}}
+	for i, r := range pool {
+		func() {
+			defer func() {
+				if x := recover(); x != nil {
+					s.Is[i] = "P"
+				}
+			}()
+			if goerrors.Is(e, r) {
+				s.Is[i] = "T"
+			} else {
+				s.Is[i] = "F"
+			}
+		}()
+	}
+	su, lu := goerrors.Unwrap(e), errors.Unwrap(e)
+	s.StdUnwNil, s.LibUnwNil = su == nil, lu == nil
+	s.UnwrapEq = sameNode(su, lu)
+	nodes := VisNodes(e)
+	s.As = append(s.As,
+		asBoth(e, nodes, func() (interface{}, func() error) {
+			var t *utypes.UPtrLeaf
+			return &t, func() error {
+				if t == nil {
+					return nil
+				}
+				return t
+			}
+		}),
+		asBoth(e, nodes, func() (interface{}, func() error) {
+			var t utypes.UValLeaf
+			return &t, func() error { return t }
+		}),
+		asBoth(e, nodes, func() (interface{}, func() error) {
+			var t interface{ Timeout() bool }
+			return &t, func() error {
+				if x, ok := t.(error); ok {
+					return x
+				}
+				return nil
+			}
+		}),
+		asBoth(e, nodes, func() (interface{}, func() error) {
+			var t *os.PathError
+			return &t, func() error {
+				if t == nil {
+					return nil
+				}
+				return t
+			}
+		}),
+		asBoth(e, nodes, func() (interface{}, func() error) {
+			var t syscall.Errno
+			return &t, func() error { return t }
+		}),
+		asBoth(e, nodes, func() (interface{}, func() error) {
+			var t interface{ ErrorHint() string }
+			return &t, func() error {
+				if x, ok := t.(error); ok {
+					return x
+				}
+				return nil
+			}
+		}),
+		asBoth(e, nodes, func() (interface{}, func() error) {
+			var t *utypes.UWrapC
+			return &t, func() error {
+				if t == nil {
+					return nil
+				}
+				return t
+			}
+		}),
+	)
+	s.PkgRoot = indexOf(nodes, pkgerrors.Cause(e))
+	s.LibRoot = indexOf(nodes, errors.UnwrapAll(e))
+	s.CauseEq = sameNode(errors.Cause(e), errors.UnwrapAll(e))
+	return s
 }
